@@ -121,6 +121,31 @@ def crowd_program(rng):
     return {'objects': gen.objects, 'roots': roots, 'start': 0, 'till': None}
 
 
+def integer_clock_program(rng):
+    """an exact integer clock beyond float precision: integer start, delays and dates only -
+    dates that differ by 1 are different dates although they round to the same float"""
+    gen = Gen(rng, weights=FANOUT)
+    gen.program()
+    start = rng.choice([2 ** 53, 2 ** 60, 10 ** 17])
+    roots = []
+    for index in range(rng.randint(3, 9)):
+        steps = []
+        for _ in range(rng.randint(1, 4)):
+            roll = rng.random()
+            if roll < 0.5:
+                notif = {'k': 'delay', 'd': rng.choice([1, 1, 2, 3, 5])}
+            elif roll < 0.8:
+                notif = {'k': rng.choice(['ge', 'ge', 'eq']), 't': start + rng.randint(0, 9)}
+            else:
+                notif = {'k': 'instant'}
+            steps.append({'op': 'wait', 'n': notif, 'id': gen.next_id('s')})
+            if rng.random() < 0.4:
+                steps.append({'op': 'setflag', 'f': rng.randrange(3), 'v': rng.random() < 0.6,
+                              'id': gen.next_id('s')})
+        roots.append({'name': 'i%d' % index, 'steps': steps})
+    return {'objects': gen.objects, 'roots': roots, 'start': start, 'till': None}
+
+
 D15_CANARY = {
     'objects': {}, 'start': 0, 'till': None,
     'roots': [{'name': 'r0', 'steps': [
@@ -147,6 +172,8 @@ def build(seed, index):
         return pipe_program(rng)
     if rng.random() < 0.03:
         return crowd_program(rng)
+    if rng.random() < 0.04:
+        return integer_clock_program(rng)
     # a few programs start at a date so large that small positive delays are lost in float
     # rounding (now + delay == now): the kernel then queues a *new* step of the same date
     gen = Gen(rng, weights=FANOUT, max_roots=6, max_steps=5,
